@@ -18,5 +18,7 @@ func TestMain(m *testing.M) {
 		"C12mcrew": C12mcrew,
 		"C07mcrew": C07mcrew,
 		"C14http":  C14http,
+		"C11mcrew": C11mcrew,
+		"C17http":  C17http,
 	})
 }
